@@ -50,7 +50,7 @@ CHECKS = {
          "DESIGN.md §5 C07"),
  "C09": ("mc-graph", "model_checking",
          "exhaustive enumeration of contributor multisets and all their permutations on the real TypeAggregator against a reference merge",
-         "All multisets of 2..4 (quick) / 2..5 (thorough) contributors from a 17-contributor universe (a:b/i at 8 versions with overlapping/disjoint/conflicting export sets, equal and conflicting functions, a kind clash on one track, nested instances, and WIT-derived interfaces that `use` a type of a compatible or incompatible version of another merged interface), each decoded into its own Types collection, and every permutation of each, are aggregated. Checked: verdict equals the reference merge and is the same for every permutation; the name->canonical-type map is the same for every permutation; the canonical name is the highest version of its track and every lower name redirects to it; the merged type satisfies every contributor (fresh SubtypeChecker); re-aggregating every contributor changes nothing; no panic.",
+         "All multisets of 2..4 (quick) / 2..5 (thorough) contributors from a 24-contributor universe (a:b/i at 13 versions incl. multi-digit and prefix-trap versions, a hand-written contributor whose exports share one type index with overlapping/disjoint/conflicting export sets, equal and conflicting functions, a kind clash on one track, nested instances, and WIT-derived interfaces that `use` a type of a compatible or incompatible version of another merged interface), each decoded into its own Types collection, and every permutation of each, are aggregated. Checked: verdict equals the reference merge and is the same for every permutation; the name->canonical-type map is the same for every permutation; the canonical name is the highest version of its track and every lower name redirects to it; the merged type satisfies every contributor (fresh SubtypeChecker); re-aggregating every contributor changes nothing; no panic.",
          "Trusts the reference merge (A.3) and, for satisfaction, wac's SubtypeChecker (tied to the reference validator by C07). For mixes of hand-described and WIT-derived contributors the reference gives no verdict on success/failure (counted as unspecified) but all order-independence and law checks still apply.",
          "DESIGN.md §5 C09, A.3"),
  "C10": ("mc-graph", "exploration",
